@@ -143,7 +143,26 @@ func (prop) Generate(rng *sim.Rng, tier string, runIndex int) driver.Scenario {
 		sc.Entries = append(sc.Entries, Entry{Name: pre(dotSlash, nm), T: "f", Len: ln, Fill: rng.Intn(256)})
 	}
 	if odd {
-		switch rng.Intn(7) {
+		switch rng.Intn(9) {
+		case 7:
+			// an entry that carries the archive's own file name (a release tarball that
+			// ships the previous release's tarball, a zip that was zipped next to itself)
+			an := map[string]string{"lib": "sdk-archive" + map[string]string{"tgz": ".tar.gz", "txz": ".tar.xz", "zip": ".zip"}[sc.Format], "esp": path.Base(fetchrt.ESPClangURL("linux-amd64")), "wasi": path.Base(fetchrt.WasiURL)}[sc.Kind]
+			e := Entry{Name: an, T: "f", Len: rng.Range(1, 3000), Fill: 0x41}
+			if rng.Bool() {
+				sc.Entries = append([]Entry{e}, sc.Entries...)
+			} else {
+				sc.Entries = append(sc.Entries, e)
+			}
+		case 8:
+			// two symbolic links that each stay inside the destination when their
+			// target is read as text, and together lead out of it; then an entry
+			// through the second one
+			d := top + "k1/k2/k3/k4/k5/"
+			sc.Entries = append(sc.Entries, Entry{Name: d + "x", T: "l", Link: "../../../.."}, Entry{Name: d + "y", T: "l", Link: "x/../../../.."})
+			if rng.Intn(4) != 0 {
+				sc.Entries = append(sc.Entries, Entry{Name: d + "y/chained.txt", T: "f", Len: 7, Fill: 0x43})
+			}
 		case 5:
 			// names with backslashes: on this platform one path component, nothing
 			// to split - an extractor that "normalises" them after its guard escapes
@@ -174,7 +193,19 @@ func (prop) Generate(rng *sim.Rng, tier string, runIndex int) driver.Scenario {
 				sc.Entries = append(sc.Entries, Entry{Name: top + "link", T: "f", Len: 6, Fill: 0x55})
 			}
 		case 3:
+			// a further name (hard link) of a regular file; then perhaps one of the two
+			// names once more as a regular file of its own: it replaces that name and
+			// must leave the other one alone
+			if rng.Bool() {
+				sc.Entries = append(sc.Entries, Entry{Name: top + "a", T: "f", Len: rng.Range(1, 200), Fill: rng.Intn(256)})
+			}
 			sc.Entries = append(sc.Entries, Entry{Name: top + "hard", T: "h", Link: top + "a"})
+			switch rng.Intn(3) {
+			case 1:
+				sc.Entries = append(sc.Entries, Entry{Name: top + "hard", T: "f", Len: rng.Range(1, 200), Fill: 0x48})
+			case 2:
+				sc.Entries = append(sc.Entries, Entry{Name: top + "a", T: "f", Len: rng.Range(1, 200), Fill: 0x49})
+			}
 		case 4:
 			sc.Entries = append(sc.Entries, Entry{Name: "", T: "f", Len: 2})
 		}
@@ -240,6 +271,34 @@ func (prop) Generate(rng *sim.Rng, tier string, runIndex int) driver.Scenario {
 	}
 	sc.Cfg = cfg
 	return sc
+}
+
+// topOf is the directory prefix the generated entries of a scenario live under.
+func topOf(sc *Scenario) string {
+	switch sc.Kind {
+	case "esp":
+		return "esp-clang/"
+	case "wasi":
+		return fetchrt.WasiSubdir + "/"
+	}
+	if sc.Sub != "" {
+		return sc.Sub + "/"
+	}
+	return ""
+}
+
+const staleMark = "left by a killed request: an older version of the archive was being unpacked"
+
+// plantStale fills a temporary directory with what a request killed while
+// unpacking an older version of the archive leaves there.
+func plantStale(root, top string) {
+	if filepath.Base(root) != "tree" {
+		// the directory the tree is unpacked into, wherever the code under test puts it
+		plantStale(filepath.Join(root, "tree"), top)
+	}
+	os.MkdirAll(filepath.Join(root, top, "removed-upstream"), 0755)
+	os.WriteFile(filepath.Join(root, top, "removed-upstream", "old.h"), []byte(staleMark), 0644)
+	os.WriteFile(filepath.Join(root, top, "zz-old.txt"), []byte(staleMark), 0644)
 }
 
 func pre(dot bool, s string) string {
@@ -319,6 +378,12 @@ func classify(sc *Scenario) (k klass, want map[string][]byte, wantDirs map[strin
 			delete(linkNames, rel) // a regular file from here on
 		case "l":
 			k.links = true
+			// a link whose target, read relative to the link's own directory, is not
+			// strictly inside the destination may be refused: no requirement that the
+			// request succeeds (confinement is asserted whatever happens)
+			if t := path.Clean("/d/" + path.Dir(rel) + "/" + e.Link); path.IsAbs(e.Link) || !strings.HasPrefix(t, "/d/") {
+				k.illform = true
+			}
 			continue
 		case "d":
 			if rel != "" {
@@ -488,11 +553,13 @@ func (prop) Run(scx driver.Scenario, ch *sim.Choices, keep bool) *driver.Result 
 		case "temp":
 			os.MkdirAll(dst+".temp/junk", 0755)
 			os.WriteFile(dst+".temp/junk/partial", []byte("partial"), 0644)
+			plantStale(dst+".temp", topOf(sc))
 		case "extract":
 			os.MkdirAll(dst+".extract/old", 0755)
 			os.WriteFile(dst+".extract/old/partial", []byte("partial"), 0644)
 		case "extracttemp":
 			os.MkdirAll(dst+".extract.temp/old", 0755)
+			plantStale(dst+".extract.temp", topOf(sc))
 		case "lock":
 			os.WriteFile(dst+".lock", nil, 0644)
 		case "populated":
@@ -516,6 +583,9 @@ func (prop) Run(scx driver.Scenario, ch *sim.Choices, keep bool) *driver.Result 
 	expFiles := map[string][]byte{}
 	expDirs := map[string]bool{}
 	for n, d := range want {
+		if sc.Kind == "wasi" && !strings.HasPrefix(n, fetchrt.WasiSubdir+"/") {
+			continue // what is published is the SDK's own directory; entries beside it have no place in the destination
+		}
 		if sub == "" {
 			expFiles[n] = d
 		} else if strings.HasPrefix(n, sub+"/") {
@@ -523,6 +593,9 @@ func (prop) Run(scx driver.Scenario, ch *sim.Choices, keep bool) *driver.Result 
 		}
 	}
 	for n := range wantDirs {
+		if sc.Kind == "wasi" && n != fetchrt.WasiSubdir && !strings.HasPrefix(n, fetchrt.WasiSubdir+"/") {
+			continue
+		}
 		if sub == "" {
 			expDirs[n] = true
 		} else if strings.HasPrefix(n, sub+"/") {
@@ -766,6 +839,18 @@ func (prop) Run(scx driver.Scenario, ch *sim.Choices, keep bool) *driver.Result 
 			if why := verify(); why != "" {
 				set("partial-publish", "at the end of the run the destination exists but is incomplete: "+why)
 			}
+		}
+		if derr == nil {
+			// one copy of the archive: nothing that a killed earlier request had left in a
+			// temporary directory may be part of what is published
+			filepath.Walk(dst, func(p string, info os.FileInfo, err error) error {
+				if err == nil && info.Mode().IsRegular() && info.Size() == int64(len(staleMark)) {
+					if b, _ := os.ReadFile(p); string(b) == staleMark {
+						set("leftover-published", "the published destination contains "+w.Rel(p)+", which no entry of the archive put there: an earlier, killed request had left it in a temporary directory")
+					}
+				}
+				return nil
+			})
 		}
 	}
 	if cls == "" && s.End == sim.EndQuiescent {
